@@ -31,6 +31,12 @@ Engines E1 (explicit-state BFS to closure) + E2 (small-scope enumeration) + E5 (
     whose seam is not entered on a resumed slice was served from a store: it takes no time, and what the slice consumes
     of its budget is what the stored result holds (hits used = k_used of the stored T2 result), so the budget must bind
     and be named with the same precedence as on the slice that computed it.
+(d) ``driver histories``  the real scheduling DRIVER (clematis/scripts/demo.py ``main()``: select -> run_one_turn with the
+    driver-authored scheduler log -> bookkeeping/rotation only for turns that yielded) is run over every sequence of per-turn
+    stage-duration scripts (so yielding and completing turns mix inside one run, on one shared state, with the driver's own
+    variables living across the turns) x policy x allowance (x wall).  Oracle: the scheduler records of the run are, in
+    order, exactly the turns that had to stop at a stage boundary under the reference precedence (that turn's agent, that
+    boundary, an allowed reason) - no record for a turn that ran to completion - and the turn records agree.
 """
 from __future__ import annotations
 
@@ -705,6 +711,33 @@ class Harness:
             self._cfg_cache[key] = raw
         return _to_attrdict(json.loads(json.dumps(raw)))
 
+    def driver_config(self, policy, allowance, wall):
+        """Configuration FILE for the driver (clematis/scripts/demo.py --config): the repository's stock configs/config.yaml
+        - what the driver runs with by default - with the snapshot directory redirected into the scratch area and a
+        scheduler section: enabled, quantum Q_MS, stage budgets absent, optional wall, fairness allowance."""
+        key = ("driver", policy, allowance, wall)
+        path = self._cfg_cache.get(key)
+        if path is None:
+            try:
+                import yaml
+                from configs import validate as _cv
+                src = os.path.join(os.path.dirname(os.path.abspath(_cv.__file__)), "config.yaml")
+                with open(src, "r", encoding="utf-8") as f:
+                    raw = yaml.safe_load(f) or {}
+            except Exception as e:
+                raise HarnessError("stock configuration not loadable for the driver leg: %r" % (e,))
+            raw.setdefault("t4", {})["snapshot_dir"] = self.snaps
+            budgets = {} if wall is None else {"wall_ms": int(wall)}
+            raw["scheduler"] = {"enabled": True, "policy": policy, "quantum_ms": Q_MS, "budgets": budgets,
+                                "fairness": {"max_consecutive_turns": int(allowance), "aging_ms": 200}}
+            cdir = os.path.join(os.path.dirname(self.logs), "driver-cfg")
+            os.makedirs(cdir, exist_ok=True)
+            path = os.path.join(cdir, "cfg-%s-%d-%s.yaml" % (policy, allowance, wall))
+            with open(path, "w", encoding="utf-8") as f:
+                yaml.safe_dump(raw, f, sort_keys=True)
+            self._cfg_cache[key] = path
+        return path
+
     def read_logs(self):
         out = {}
         for e in os.scandir(self.logs):
@@ -1193,6 +1226,237 @@ def _turn_worker(chunk, st: Stats, scratch_root, scripts, texts, worlds, rdepth=
 
 
 # ====================================================================================================
+# (d) driver histories: the real scheduling driver loop (clematis/scripts/demo.py main) over several turns
+# ====================================================================================================
+DRIVER_AGENTS = ("A", "B", "C")
+DRIVER_TEXT = "hello world"
+
+
+def _driver_bd(case):
+    bd = {"quantum_ms": Q_MS}
+    if case.get("wall") is not None:
+        bd["wall_ms"] = int(case["wall"])
+    return bd
+
+
+def _driver_ref_step(bd, script, calls):
+    """Reference boundary of ONE turn of a driver history.  Stage budgets are absent in this leg, so the only boundary
+    conditions are the clock ones (wall, quantum); the clock advances only inside a stage seam that was entered (a stage
+    served from a store takes no time, so it cannot newly satisfy a clock condition).
+    returns (stage, allowed reasons) for the first boundary at which the turn has to stop, or None"""
+    elapsed = 0
+    for i, stage in enumerate(STAGES):
+        if stage in calls:
+            elapsed += script[i]
+        allowed = ref_yield(bd, {"ms": elapsed})
+        if None not in allowed:
+            return stage, allowed
+    return None
+
+
+def run_driver(h: "Harness", case):
+    """One run of the real driver: `clematis.scripts.demo.main()` with the stock configuration file (snapshot directory
+    redirected, scheduler section added), len(history) steps; turn k of the run takes history[k] ms inside its stage seams.
+    returns (steps [(agent the driver selected, _Rec)], logs, exception or None)"""
+    import contextlib
+    import io
+    import clematis.scripts.demo as demo
+    for nm in ("main", "run_one_turn"):
+        if not hasattr(demo, nm):
+            raise HarnessError("seam missing: clematis.scripts.demo.%s" % nm)
+    h.hist = None
+    h._clean()
+    h.reset_caches()
+    path = h.driver_config(case["policy"], int(case["allowance"]), case.get("wall"))
+    scripts = [tuple(int(x) for x in s) for s in case["history"]]
+    agents = list(DRIVER_AGENTS[: int(case.get("agents", len(DRIVER_AGENTS)))])
+    steps = []
+    real = demo.run_one_turn
+
+    def w_turn(agent_id, *a, **k):
+        if len(steps) >= len(scripts):
+            raise HarnessError("the driver ran more turns than --steps=%d" % len(scripts))
+        rec = _Rec(scripts[len(steps)])
+        steps.append((str(agent_id), rec))
+        h.rec = rec
+        h.clock_ms = 1000
+        try:
+            return real(agent_id, *a, **k)
+        finally:
+            h.rec = None
+
+    saved_argv = sys.argv
+    demo.run_one_turn = w_turn
+    sys.argv = ["demo", "--config", path, "--agents", ",".join(agents), "--steps", str(len(scripts)),
+                "--text", DRIVER_TEXT, "--fixed-now-ms", "13371337"]
+    err = None
+    try:
+        with contextlib.redirect_stdout(io.StringIO()):
+            demo.main()
+    except HarnessError:
+        raise
+    except (Exception, SystemExit) as e:
+        err = e
+    finally:
+        demo.run_one_turn = real
+        sys.argv = saved_argv
+        h.rec = None
+    return steps, h.read_logs(), err
+
+
+def eval_driver(case, steps, logs, err):
+    """Oracle for one driver run.  The scheduler records the driver authors (scheduler.jsonl of the run) are, in order, exactly
+    the boundary yields of the run: one record per turn that had to stop at a stage boundary - naming that turn's agent,
+    that boundary and an allowed reason - and none for a turn that ran to completion; the orchestrator's own turn records
+    (yielded / yield_reason) tell the same story.
+    returns ([(sig, what)], [outcome per step], nontrivial)"""
+    out = []
+    bd = _driver_bd(case)
+    hist = [list(map(int, s)) for s in case["history"]]
+    desc = "driver run policy=%s allowance=%d agents=%s wall=%s history=%s" % (
+        case["policy"], int(case["allowance"]), case.get("agents", len(DRIVER_AGENTS)), case.get("wall"), hist)
+    if err is not None:
+        return [("driver:raises:%s" % type(err).__name__, "demo.main() raised %r after %d turn(s); %s" % (
+            err, len(steps), desc))], [("driver", "raises", type(err).__name__)], False
+    if len(steps) != len(hist):
+        out.append(("driver:turn-count", "the driver ran %d turn(s) for --steps=%d; %s" % (len(steps), len(hist), desc)))
+    expected = []      # (step, agent, stage, allowed) for every turn that has to stop at a boundary
+    flags = []
+    outcomes = []
+    for k, (agent, rec) in enumerate(steps):
+        if rec.calls[:1] != ["T1"]:
+            out.append(("driver:stage-skipped-without-yield", "turn %d (%s) did not start with T1: calls=%s; %s" % (
+                k + 1, agent, rec.calls, desc)))
+        ref = _driver_ref_step(bd, rec.script, rec.calls)
+        flags.append(ref is not None)
+        if ref is None:
+            outcomes.append(("driver", "-", "-"))
+            continue
+        stage, allowed = ref
+        expected.append((k, agent, stage, allowed))
+        outcomes.append(("driver", stage, _allowed_cls(allowed)))
+        ran_later = [s for s in rec.calls if s in STAGES[STAGES.index(stage) + 1:]]
+        if ran_later:
+            out.append(("driver:later-stage-ran", "turn %d (%s) had to stop at %s (allowed %s) but %s still ran; %s" % (
+                k + 1, agent, stage, sorted(map(str, allowed)), ran_later, desc)))
+    sched = logs.get("scheduler.jsonl", [])
+    turns = logs.get("turn.jsonl", [])
+    got = [(r.get("agent"), r.get("stage_end"), r.get("reason")) for r in sched]
+    want = [(a, s, "|".join(sorted(map(str, al)))) for _k, a, s, al in expected]
+    tflags = [bool(t.get("yielded")) for t in turns]
+    if len(turns) != len(steps):
+        out.append(("driver:turn-record-count", "%d turn.jsonl records for %d turns; %s" % (len(turns), len(steps), desc)))
+    elif tflags != flags:
+        k = next(i for i in range(len(flags)) if flags[i] != tflags[i])
+        if flags[k]:
+            out.append(("driver:missed-yield:%s" % outcomes[k][2],
+                        "turn %d (%s, stages %s) had to stop at boundary %s but its turn record is not a yield; %s" % (
+                            k + 1, steps[k][0], steps[k][1].calls, outcomes[k][1], desc)))
+        else:
+            out.append(("driver:spurious-yield", "turn %d (%s, stages %s) met no boundary condition but its turn record says "
+                        "yielded (%r); %s" % (k + 1, steps[k][0], steps[k][1].calls, turns[k].get("yield_reason"), desc)))
+    if len(got) > len(want):
+        out.append(("driver:yield-record-without-boundary-yield",
+                    "scheduler.jsonl of the run has %d record(s) %s but only %d turn(s) stopped at a stage boundary %s "
+                    "(turn records yielded=%s); %s" % (len(got), got, len(want), want, tflags, desc)))
+    elif len(got) < len(want):
+        out.append(("driver:boundary-yield-not-recorded",
+                    "scheduler.jsonl of the run has %d record(s) %s but %d turn(s) stopped at a stage boundary %s; %s" % (
+                        len(got), got, len(want), want, desc)))
+    else:
+        for n_rec, ((k, agent, stage, allowed), (g_agent, g_stage, g_reason)) in enumerate(zip(expected, got)):
+            where = "record %d of scheduler.jsonl %s belongs to turn %d (%s stopped at %s, allowed %s)" % (
+                n_rec + 1, (g_agent, g_stage, g_reason), k + 1, agent, stage, sorted(map(str, allowed)))
+            if g_agent != agent:
+                out.append(("driver:record-names-other-agent", "%s; %s" % (where, desc)))
+            if g_stage != stage:
+                out.append(("driver:record-names-other-boundary", "%s; %s" % (where, desc)))
+            if g_reason not in allowed:
+                out.append(("driver:expected-%s:got-%s" % (_allowed_cls(allowed), _cls(g_reason)), "%s; %s" % (where, desc)))
+            if len(turns) == len(steps) and tflags == flags and turns[k].get("yield_reason") != g_reason:
+                out.append(("driver:reason-differs-between-records", "%s but the turn record says %r; %s" % (
+                    where, turns[k].get("yield_reason"), desc)))
+    # a run in which a turn that stopped at a boundary and a turn that ran to completion both occur
+    nontrivial = any(flags) and not all(flags)
+    return _dedupe(out), outcomes, nontrivial
+
+
+def check_driver(h: "Harness", case):
+    steps, logs, err = run_driver(h, case)
+    return eval_driver(case, steps, logs, err)
+
+
+def minimise_driver(h, case, sig, what):
+    """the shortest prefix of the history that still shows the signature, then stage durations zeroed while it does"""
+    def still(c):
+        for s_, w_ in check_driver(h, c)[0]:
+            if s_ == sig:
+                return w_
+        return None
+    cur, cur_what = json.loads(json.dumps(case)), what
+    for n in range(1, len(case["history"])):
+        c = dict(cur, history=[list(s) for s in case["history"][:n]])
+        w = still(c)
+        if w is not None:
+            cur, cur_what = c, w
+            break
+    for k in range(len(cur["history"])):
+        if any(cur["history"][k]):
+            c = json.loads(json.dumps(cur))
+            c["history"][k] = [0, 0, 0, 0, 0]
+            w = still(c)
+            if w is not None:
+                cur, cur_what = c, w
+    if cur.get("wall") is not None:
+        c = dict(cur, wall=None)
+        w = still(c)
+        if w is not None:
+            cur, cur_what = c, w
+    return cur, cur_what
+
+
+def _driver_worker(chunk, st: Stats, scratch_root, alphabet, length):
+    import logging
+    logging.disable(logging.CRITICAL)
+    scratch = os.path.join(scratch_root, "driver-%d" % os.getpid())
+    h = Harness(scratch)
+    h.install()
+    minimised = set()
+    try:
+        first = True
+        for policy, allowance, wall, head in chunk:
+            for tail in itertools.product(alphabet, repeat=length - 1):
+                history = [list(head)] + [list(s) for s in tail]
+                case = {"kind": "driver", "policy": policy, "allowance": allowance, "wall": wall,
+                        "agents": len(DRIVER_AGENTS), "history": history}
+                viols, outcomes, nontrivial = check_driver(h, case)
+                if first:  # harness determinism: the first run of every worker is repeated
+                    first = False
+                    v2, o2, _ = check_driver(h, case)
+                    if (sorted(viols), outcomes) != (sorted(v2), o2):
+                        raise HarnessError("driver harness nondeterministic on %s" % json.dumps(case, sort_keys=True))
+                st.add("transitions", len(history))
+                st.add("validated", len(history))
+                st.add("driver_runs")
+                st.add("driver_turns", len(history))
+                st.distinct("states", ("driver", policy, allowance, wall, tuple(map(tuple, history))))
+                for oc in set(outcomes):
+                    st.distinct("outcomes", oc)
+                if nontrivial:
+                    st.add("nontrivial")
+                    st.add("driver_runs_mixing_yielding_and_completing_turns")
+                for sig, what in viols:
+                    if sig in minimised:
+                        continue
+                    minimised.add(sig)
+                    mc, mw = minimise_driver(h, case, sig, what)
+                    st.violation(sig, mw, mc)
+    finally:
+        h.uninstall()
+        shutil.rmtree(scratch, ignore_errors=True)
+
+
+# ====================================================================================================
 # driver
 # ====================================================================================================
 def _dispatch(chunk, st: Stats, scratch_root, P):
@@ -1204,6 +1468,8 @@ def _dispatch(chunk, st: Stats, scratch_root, P):
             _yield_worker(item[1], st, P["yvals"], P["walls"], P["elapsed"])
         elif kind == "turn":
             _turn_worker(item[1], st, scratch_root, P["scripts"], P["texts"], P["worlds"], P["resume_depth"], P["resume_from"])
+        elif kind == "driver":
+            _driver_worker(item[1], st, scratch_root, P["driver_steps"], P["driver_len"])
         else:
             raise HarnessError("unknown work item %r" % (kind,))
 
@@ -1230,6 +1496,9 @@ def params(thorough):
             "texts": ("apple", "fig", "plum", "zzz"), "worlds": ("W1", "W2"),
             # resumed-slice leg: up to two more identical slices after every distinct first slice that stopped before Apply
             "resume_depth": 2, "resume_from": ("T1", "T2", "T3", "T4"),
+            # driver histories: every sequence of 4 turns over {no time, a quantum inside T1 / T4 / Apply, the wall inside T3}
+            "driver_steps": [(0, 0, 0, 0, 0), (Q_MS, 0, 0, 0, 0), (0, 0, 0, Q_MS, 0), (0, 0, 0, 0, Q_MS), (0, 0, W_MS, 0, 0)],
+            "driver_len": 4, "driver_walls": (None, W_MS), "driver_allow": (1, 2),
         }
     return {
         "ns": (2, 3, 4), "allow": (1, 2, 3), "aging": (0, 100), "advs": (0, 50, 100, 300), "gaps": (0,),
@@ -1241,6 +1510,9 @@ def params(thorough):
         # resumed-slice leg: one more identical slice after every distinct first slice that stopped at the T2, T3 or T4
         # boundary (a slice that stopped at T1 leaves nothing in the state; thorough tier)
         "resume_depth": 1, "resume_from": ("T2", "T3", "T4"),
+        # driver histories: every sequence of 3 turns over {no time, a quantum inside T1 / T3 / Apply}
+        "driver_steps": [(0, 0, 0, 0, 0), (Q_MS, 0, 0, 0, 0), (0, 0, Q_MS, 0, 0), (0, 0, 0, 0, Q_MS)],
+        "driver_len": 3, "driver_walls": (None,), "driver_allow": (1, 2),
     }
 
 
@@ -1266,6 +1538,10 @@ def run(run: Run) -> None:
         part = yb[i::ny]
         if part:
             items.append(("yield", part))
+    dcfg = [(pol, m, w, head) for pol in ("round_robin", "fair_queue") for m in P["driver_allow"] for w in P["driver_walls"]
+            for head in P["driver_steps"]]
+    for d in dcfg:
+        items.append(("driver", [d]))
     # interleave: the few very large BFS items first, then everything else
     heavy = [it for it in items if it[0] == "sched"][:8]
     rest = [it for it in items if it not in heavy]
@@ -1286,6 +1562,8 @@ def run(run: Run) -> None:
          "wall": W_MS, "script": [0, 0, 0, 0, Q_MS]},
         {"kind": "turn", "world": "W1", "text": "apple", "budgets": {"t1_iters": None, "t1_pops": None, "t2_k": 2, "t3_ops": None},
          "wall": None, "script": [0, 0, 0, 0, 0], "resume": 1},
+        {"kind": "driver", "policy": "round_robin", "allowance": 1, "wall": None, "agents": 3,
+         "history": [[Q_MS, 0, 0, 0, 0], [0, 0, 0, 0, 0], [0, 0, 0, 0, Q_MS]]},
     ]
     if run.n.get("depth_cap_hit"):
         run.cap("scheduler BFS hit the depth safety net 4B+4 in %d configuration(s) (e.g. %s)" % (
@@ -1303,7 +1581,14 @@ def run(run: Run) -> None:
         "turn_budget_values": ["absent", 0, 1, 2], "turn_wall": ["absent", W_MS], "quantum_ms": Q_MS,
         "turn_scripts": len(P["scripts"]), "turn_texts": list(P["texts"]), "turn_worlds": list(P["worlds"]),
         "turn_resumed_slices": P["resume_depth"], "turn_resumed_after_stop_at": list(P["resume_from"]),
+        "driver_turn_durations": [list(s_) for s_ in P["driver_steps"]], "driver_history_length": P["driver_len"],
+        "driver_wall": ["absent" if w is None else w for w in P["driver_walls"]], "driver_allowance": list(P["driver_allow"]),
+        "driver_agents": len(DRIVER_AGENTS),
     }
+    ndrv = len(dcfg) * len(P["driver_steps"]) ** (P["driver_len"] - 1)
+    run.notes["driver_runs_planned"] = ndrv
+    if run.n.get("driver_runs", 0) != ndrv:
+        raise HarnessError("driver enumeration incomplete: %s of %d" % (run.n.get("driver_runs"), ndrv))
     if run.n.get("turns", 0) + run.n.get("turn_scripts_same_execution_skipped", 0) != nturn:
         raise HarnessError("turn enumeration incomplete: %s + %s of %d" % (
             run.n.get("turns"), run.n.get("turn_scripts_same_execution_skipped"), nturn))
@@ -1319,7 +1604,13 @@ def run(run: Run) -> None:
         "predecessor again stopped before Apply) and judged by the same per-slice oracle; a stage whose seam is not entered on a "
         "resumed slice was served from a store: it takes no time and the slice consumes what the stored result holds (hits used "
         "= k_used of the stored T2 result); non-trivial = a resumed slice with a stage served from a store that yielded with a "
-        "binding clamp or two coinciding conditions")
+        "binding clamp or two coinciding conditions; (d) driver histories: the real driver loop clematis/scripts/demo.py main() "
+        "(stock configuration file + scheduler section, 3 agents, one shared state, driver-authored scheduler.jsonl) is run for "
+        "every sequence of per-turn stage-duration scripts of the stated length over the stated alphabet x policy x allowance "
+        "(x wall), stage budgets absent; oracle: the scheduler records of the run are, in order, exactly the turns that had to "
+        "stop at a stage boundary under the reference precedence (agent of that turn, that boundary, an allowed reason), none "
+        "for a turn that ran to completion, and the turn records' yielded flags / reasons agree; non-trivial = a run in which "
+        "both a turn that stopped at a boundary and a turn that ran to completion occur")
     run.notes["resumed_slices"] = {
         "depth": P["resume_depth"], "after_first_slice_stopped_at": list(P["resume_from"]),
         "executed": int(run.n.get("turns_resumed", 0)),
@@ -1342,6 +1633,12 @@ def run(run: Run) -> None:
                "is the initial one; time spent in a store lookup is zero (the fake clock only advances inside the stage seams), so "
                "on a resumed slice quantum/wall cannot newly expire at the boundary of a stage served from a store")
     run.assume("orchestrator clock = core.time.perf_counter (FakeClock); elapsed time only advances inside the five stage seams")
+    run.assume("driver histories: the driver is entered through clematis.scripts.demo.main() with --config/--agents/--steps/--text/"
+               "--fixed-now-ms, logs through CLEMATIS_LOG_DIR; the per-turn scripts are switched at the driver's call of "
+               "run_one_turn; stage budgets are absent there (only wall/quantum boundaries), so a stage served from a store "
+               "cannot satisfy a new boundary condition; which agent the driver selects next and whether it runs on_yield for "
+               "a turn that did not yield is not judged (the statement only speaks about selections followed by their "
+               "bookkeeping) - only that every scheduler record corresponds to a real boundary yield of the recorded agent")
     run.assume("which of several exhausted stage budgets is named, and whether consumption strictly above a budget counts as "
                "exhausted, is not part of the statement and not checked")
 
@@ -1352,6 +1649,18 @@ def replay(case):
         return replay_sched(case)
     if kind == "yield":
         return check_yield(case["budgets"], case["consumed"])[0]
+    if kind == "driver":
+        import logging
+        import tempfile
+        logging.disable(logging.CRITICAL)
+        d = tempfile.mkdtemp(prefix="c17r-", dir="/dev/shm" if os.path.isdir("/dev/shm") else None)
+        h = Harness(d)
+        h.install()
+        try:
+            return check_driver(h, case)[0]
+        finally:
+            h.uninstall()
+            shutil.rmtree(d, ignore_errors=True)
     if kind == "turn":
         import logging
         import tempfile
